@@ -36,6 +36,8 @@ def case_sexp(case):
              ('sel',) + tuple(case['sel'])]
     if case.get('cond'):
         parts.append(('cond',) + tuple(case['cond']))
+    if case.get('forall'):
+        parts.append(('forall', case['forall'][0]) + tuple(case['forall'][1]))
     return sexp(tuple(parts))
 
 
@@ -209,6 +211,11 @@ class Oracle:
             mentioned |= cond_vars(c)
         for t in case['sel']:
             mentioned |= term_vars(t)
+        fa = case.get('forall')
+        if fa:
+            for c in fa[1]:
+                mentioned |= cond_vars(c)
+            mentioned.discard(fa[0])
         vids = [v[0] for v in case['vars'] if v[0] in mentioned]
         doms = [self.dom(v) for v in vids]
         flats = []
@@ -221,6 +228,8 @@ class Oracle:
             asg = dict(zip(vids, combo))
             for full in self._extend(flats, asg):
                 if all(self.holds(c, full) for c in (case.get('cond') or [])):
+                    if fa and not all(all(self.holds(c, {**full, fa[0]: o}) for c in fa[1]) for o in self.dom(fa[0])):
+                        continue
                     out.append(tuple(self.term_val(t, full) for t in case['sel']))
         return out
 
